@@ -125,6 +125,10 @@ func genShape(r *rand.Rand) shape {
 	}
 	if r.Intn(3) == 0 {
 		s.Tolerations = []corev1.Toleration{{Key: "dedicated", Operator: corev1.TolerationOpEqual, Value: "infra", Effect: corev1.TaintEffectNoSchedule}}
+		if r.Intn(3) == 0 {
+			// every key, but only the NoSchedule effect: a NoExecute taint stays untolerated
+			s.Tolerations = []corev1.Toleration{{Operator: corev1.TolerationOpExists, Effect: corev1.TaintEffectNoSchedule}}
+		}
 	}
 	return s
 }
@@ -145,6 +149,8 @@ func genNode(r *rand.Rand, name string) *corev1.Node {
 		taints = append(taints, corev1.Taint{Key: "node.kubernetes.io/unschedulable", Effect: corev1.TaintEffectNoSchedule})
 	case 2:
 		taints = append(taints, corev1.Taint{Key: "maintenance", Value: "x", Effect: corev1.TaintEffectPreferNoSchedule})
+	case 3:
+		taints = append(taints, corev1.Taint{Key: "draining", Value: "x", Effect: corev1.TaintEffectNoExecute})
 	}
 	return kit.Node(name, l, taints...)
 }
@@ -526,9 +532,15 @@ func (e *Sim) actionFrom(w *World, r *rand.Rand, ns, name string, sh shape, edit
 					w.RemoveNode(pickNode())
 				}
 			case 2:
-				w.MutateNode(pickNode(), "taint dedicated=infra:NoSchedule", func(n *corev1.Node) {
-					n.Spec.Taints = append(n.Spec.Taints, corev1.Taint{Key: "dedicated", Value: "infra", Effect: corev1.TaintEffectNoSchedule})
-				})
+				if r.Intn(3) == 0 {
+					w.MutateNode(pickNode(), "taint draining=x:NoExecute", func(n *corev1.Node) {
+						n.Spec.Taints = append(n.Spec.Taints, corev1.Taint{Key: "draining", Value: "x", Effect: corev1.TaintEffectNoExecute})
+					})
+				} else {
+					w.MutateNode(pickNode(), "taint dedicated=infra:NoSchedule", func(n *corev1.Node) {
+						n.Spec.Taints = append(n.Spec.Taints, corev1.Taint{Key: "dedicated", Value: "infra", Effect: corev1.TaintEffectNoSchedule})
+					})
+				}
 			case 3:
 				w.MutateNode(pickNode(), "untaint", func(n *corev1.Node) { n.Spec.Taints = nil })
 			case 4:
